@@ -170,14 +170,21 @@ def chain_psd_part(ctx):
 
 def vacancy_part(ctx):
     import vacancy_common as vc
-    for name, calc in vc.small_calculators(ctx):
-        for t in range(2 if ctx.quick else 8):
+    calcs = list(vc.small_calculators(ctx))
+    if ctx.quick: calcs.append(('omegaR', vc.calculator('omegaR', 1)))
+    for name, calc in calcs:
+        # several Wyckoff sets: solute / vacancy site data differ between the sets - more data sets, wide spreads
+        multi = len(calc.sitelist) > 1
+        for t in range((2 if ctx.quick else 8) * (3 if multi else 1)):
             d = vc.rand_data(ctx.rng, calc, spread=(1.0 if t % 2 == 0 else 4.0))
-            if t % 4 == 3: d['preT2'] = d['preT2'] * 1e10
+            # large-exchange-rate regime; crystals with inequivalent-site exchange lose precision in proportion to the ratio of
+            # exchange to vacancy rates (finding F31, property C08), so they are driven less far here and given that allowance
+            if t % 4 == 3: d['preT2'] = d['preT2'] * (1e6 if multi else 1e10)
             L0vv, Lss, Lsv, L1vv = vc.lij(calc, d)
             rep = dict(calculator=name, data=vc.jsonable(d))
             sc = max(np.abs(L0vv).max(), np.abs(Lss).max(), np.abs(L1vv).max(), 1e-300)
-            tol = 1e-7 * sc
+            ratio2 = float(np.max(d['preT2'] * np.exp(-d['eneT2'])) / np.min(d['preT0'] * np.exp(-d['eneT0'])))
+            tol = (1e-7 + (1e-14 * min(ratio2, 1e13) if (multi and ratio2 > 1e6) else 0.0)) * sc
             ctx.case(('vac', name, t, str(d['eneT0'])), nontrivial=True)
             ctx.count('vacancy:' + name)
             _tensor_oracles(ctx, 'L0vv', ':' + name, L0vv, calc.crys, tol, rep)
